@@ -70,7 +70,9 @@ RULE = ("Hypothesis draws d in {2,3,50,300,1000(,3000)} or 2..40, cycled mode-si
         "all assertions of sub-check truncate, of which the SCALE oracle (norm and <Z, Y> of the result against those of the input as ratios "
         "of reference Gram values; part of every truncate assertion of this module) is the one that resolves 1e-10 there. "
         "Non-trivial = the plain (use_stab=False) computation is not finite-and-normal while the reference value is non-zero; "
-        "distinct by SHA-1 of the case.")
+        "distinct by SHA-1 of the case. STORAGE (`storage`): small-integer cores (-3..3, 0..3, -9..3; d 2..6 or 30..400) kept in int64 / int32 arrays "
+        "(all cores, every other core, one core) against the float64 copy of the same cores: every stabilised routine and accuracy must return "
+        "bit-for-bit the same pair / cores (non-trivial there = some rank >= 2).")
 TOLERANCES = ("scalar product: |v 2^p / ref - 1| <= 8 eps sum_k (r1 s1 + n + 2) rho_k, rho_k = ||T_k^abs |v_k|||_2 ||W_k+1||_2 / |<Y1,Y2>| "
               "(majorant of the k-th step times the norm of the right partial Gram matrix: the exact first-order propagation of one rounding "
               "error to the result), asserted when that bound is <= 1e-3; norm: half of it; accuracy: reference <Y1,Y1> - 2<Y1,Y2> + <Y2,Y2> with exact "
@@ -2199,6 +2201,72 @@ def prop_long(case, ctx):
     ctx.label("rank_kept" if oracle.ranks_of(Z) == oracle.ranks_of(Y) else "rank_cut")
 
 
+# ------------------------------------------------------------------------------------------- storage type of the cores
+
+@st.composite
+def storage_cases(draw, tier):
+    long = draw(st.integers(0, 3)) == 0
+    d = draw(st.sampled_from([30, 60, 120, 400])) if long else draw(st.integers(2, 6))
+    n = [draw(st.integers(1, 3 if long else 4)) for _ in range(d)]
+    rmax = 2 if long else 3
+    r = [1] + [draw(st.integers(1, rmax)) for _ in range(d - 1)] + [1]
+    return {"n": n, "r": r, "seed": draw(st.integers(0, 2 ** 32 - 1)), "store": draw(st.sampled_from(["int64", "int32", "mixed", "some"])),
+            "lo": draw(st.sampled_from([-3, -3, 0, -9])), "k": draw(st.integers(0, d - 1)), "log10e": draw(st.sampled_from([-10, -6, -2, -1])),
+            "at": draw(st.integers(0, 10 ** 6))}
+
+
+def prop_storage(case, ctx):
+    """The same tensor with small-integer cores, once in float64 arrays and once in integer arrays (all cores / every other core / one core):
+    every stabilised routine must return bit-for-bit the same (value, exponent) resp. cores - the first thing each of them does to a core is
+    the exact division by a power of two.  What the float64 results themselves must be is settled by the other sub-checks."""
+    n, r, d = case["n"], case["r"], len(case["n"])
+    rng = np.random.default_rng(case["seed"])
+    Yf, Y2f = [[rng.integers(case["lo"], 4, size=(r[k], n[k], r[k + 1])).astype(float) for k in range(d)] for _ in range(2)]
+    for Y in (Yf, Y2f):
+        for G in Y:
+            if not np.any(G):
+                G[0, 0, 0] = 1.0
+    st_ = case["store"]
+    pick = {"int64": lambda k: np.int64, "int32": lambda k: np.int32, "mixed": lambda k: np.int64 if k % 2 == 0 else None,
+            "some": lambda k: np.int32 if k == case["at"] % d else None}[st_]
+    Yi = [G.astype(pick(k)) if pick(k) else G.copy() for k, G in enumerate(Yf)]
+    Y2i = [G.astype(pick(k)) if pick(k) else G.copy() for k, G in enumerate(Y2f)]
+    ctx.label("stored_as:" + st_, "long" if d >= 30 else "short", f"entries>={case['lo']}")
+    ctx.nontrivial(max(r) >= 2)
+    snap = snapshot(Yi)
+
+    def same(a, b):
+        if isinstance(a, (list, tuple)):
+            return isinstance(b, (list, tuple)) and len(a) == len(b) and all(same(x, y) for x, y in zip(a, b))
+        if isinstance(a, np.ndarray):
+            return isinstance(b, np.ndarray) and a.shape == b.shape and a.dtype == b.dtype and np.array_equal(a, b, equal_nan=True)
+        return type(a) == type(b) and (a == b or (a != a and b != b))
+
+    e = 10.0 ** case["log10e"]
+    calls = [("mul_scalar(use_stab)", lambda A, B: teneva.mul_scalar(A, B, use_stab=True)), ("mul_scalar(use_stab), swapped", lambda A, B: teneva.mul_scalar(B, A, use_stab=True)),
+             ("norm(use_stab)", lambda A, B: teneva.norm(A, use_stab=True)), ("orthogonalize(use_stab)", lambda A, B: teneva.orthogonalize(A, case["k"], use_stab=True)),
+             ("truncate(use_stab)", lambda A, B: teneva.truncate(A, e, use_stab=True)), ("accuracy", lambda A, B: teneva.accuracy(A, B)),
+             ("accuracy (second operand stored as integers only)", None)]
+    with np.errstate(all="ignore"):
+        for what, fn in calls:
+            if fn is None:
+                a, b = ctx.lib(teneva.accuracy, Yf, Y2i), ctx.lib(teneva.accuracy, Yf, Y2f)
+            else:
+                a, b = ctx.lib(fn, Yi, Y2i), ctx.lib(fn, Yf, Y2f)
+            ctx.check(same(a, b), f"{what}: the result for integer-stored cores differs from that for the float64 copy of the same cores",
+                      stored=_brief(a), float64=_brief(b), store=st_)
+            ctx.inner(1)
+    unchanged(ctx, Yi, snap, "stabilised routines (integer-stored cores)")
+
+
+def _brief(x):
+    if isinstance(x, (list, tuple)):
+        return [_brief(v) for v in list(x)[:4]]
+    if isinstance(x, np.ndarray):
+        return {"dtype": str(x.dtype), "shape": list(x.shape), "max": float(np.abs(x).max()) if x.size else 0.0}
+    return x
+
+
 SUBCHECKS = [
     Sub("scalar", prop_scalar, strategy=scalar_cases, quick=60, thorough=600),
     Sub("norm", prop_norm, strategy=norm_cases, quick=60, thorough=600),
@@ -2214,4 +2282,5 @@ SUBCHECKS = [
     Sub("subnormal", prop_subnormal, strategy=subnormal_cases, quick=40, thorough=500),
     Sub("orth_false", prop_orth_false, strategy=orth_false_cases, quick=30, thorough=400),
     Sub("long_scale", prop_long, strategy=long_cases, quick=3, thorough=24),
+    Sub("storage", prop_storage, strategy=storage_cases, quick=40, thorough=500),
 ]
